@@ -266,6 +266,11 @@ func (s *SubRing) parametersLiteral() subRingParametersLiteral {
 // newSubRingFromParametersLiteral creates a new SubRing from the provided subRingParametersLiteral.
 func newSubRingFromParametersLiteral(p subRingParametersLiteral) (s *SubRing, err error) {
 
+	// The reduction constants are undefined (division by zero) for such a modulus
+	if p.Modulus < 2 {
+		return nil, fmt.Errorf("invalid modulus: %d", p.Modulus)
+	}
+
 	s = new(SubRing)
 
 	s.N = 1 << int(p.LogN)
